@@ -830,6 +830,17 @@ def m_vec(ex, st, fr, path, args, m):
     return NotImplemented
 
 
+@model(r"^" + VEC + r"::drain::<(?:std::ops::)?RangeFull>$")
+def m_vec_drain_full(ex, st, fr, path, args, m):
+    """v.drain(..): the vector is emptied at once and the iterator owns the removed elements (the Drain guard's effect after
+    it has been consumed or dropped; a Drain that is leaked half-way is not modelled)"""
+    v = vec_of(args[0])
+    taken = list(v.elems)
+    del v.elems[:]
+    cell = Cell(VecObj(taken, v.ty))
+    return IterV("slice_val", ref=Ref(cell, (), (0, len(taken))), pos=0, end=len(taken))
+
+
 @model(r"^<" + r"(?:std::vec::|alloc::vec::)?Vec<(.*)>" + r" as (?:std::ops::)?(Deref|DerefMut)>::(deref|deref_mut)$")
 def m_vec_deref(ex, st, fr, path, args, m):
     r = args[0]
